@@ -87,6 +87,13 @@ class Env:
         self.cls = cls  # class whose body defined the running function (for zero-arg super)
 
 
+class _Missing2:
+    pass
+
+
+MISSING2 = _Missing2()
+
+
 class _Missing:
     pass
 
@@ -289,16 +296,28 @@ class Interp:
             else:
                 self.eval(v, env)
         elif t is ast.Assign:
-            if isinstance(st.value, (ast.Yield, ast.YieldFrom)):
-                raise self.unsupported("yield used as an expression")
-            val = self.eval(st.value, env)
+            if isinstance(st.value, ast.Yield):
+                out = self.eval(st.value.value, env) if st.value.value is not None else None
+                self.emit("yield", value=out, func=env.func.qualname if env.func else "")
+                val = yield out
+            elif isinstance(st.value, ast.YieldFrom):
+                val = yield from self._yield_from(st.value, env)
+            else:
+                val = self.eval(st.value, env)
             for tgt in st.targets:
                 self.assign(tgt, val, env)
         elif t is ast.AnnAssign:
             if env.cls is not None and env.func is None and isinstance(st.target, ast.Name):
                 env.vars.setdefault("__annotations__", {})[st.target.id] = st.annotation
             if st.value is not None:
-                val = self.eval(st.value, env)
+                if isinstance(st.value, ast.Yield):
+                    out = self.eval(st.value.value, env) if st.value.value is not None else None
+                    self.emit("yield", value=out, func=env.func.qualname if env.func else "")
+                    val = yield out
+                elif isinstance(st.value, ast.YieldFrom):
+                    val = yield from self._yield_from(st.value, env)
+                else:
+                    val = self.eval(st.value, env)
                 self.assign(st.target, val, env)
         elif t is ast.AugAssign:
             cur = self.eval(self._as_load(st.target), env)
@@ -330,6 +349,9 @@ class Interp:
             if not broke:
                 yield from self.exec_block(st.orelse, env)
         elif t is ast.Return:
+            if isinstance(st.value, ast.YieldFrom):
+                rv = yield from self._yield_from(st.value, env)
+                raise ReturnSignal(rv)
             raise ReturnSignal(self.eval(st.value, env) if st.value is not None else None)
         elif t is ast.Raise:
             yield from ()
@@ -344,6 +366,16 @@ class Interp:
                 raise self.exc("AssertionError", msg)
         elif t is ast.Pass:
             pass
+        elif t is ast.Match:
+            subject = self.eval(st.subject, env)
+            for case in st.cases:
+                binds: dict[str, Any] = {}
+                if self.match_pattern(case.pattern, subject, binds, env):
+                    for k_, v_ in binds.items():
+                        self.assign(ast.Name(id=k_, ctx=ast.Store()), v_, env)
+                    if case.guard is None or self.truth(self.eval(case.guard, env), "case-guard"):
+                        yield from self.exec_block(case.body, env)
+                        break
         elif t is ast.Break:
             raise BreakSignal
         elif t is ast.Continue:
@@ -380,6 +412,119 @@ class Interp:
         else:
             raise self.unsupported(f"statement {t.__name__}")
 
+    _BUILTIN_SELF_MATCH = ("bool", "bytearray", "bytes", "dict", "float", "frozenset", "int", "list", "set", "str", "tuple")
+
+    def match_pattern(self, p: ast.pattern, v: Any, binds: dict, env: Env) -> bool:
+        t = type(p)
+        if t is ast.MatchValue:
+            return self.truth(self.eq(v, self.eval(p.value, env)), "case-value")
+        if t is ast.MatchSingleton:
+            return self.is_same(v, p.value) is True
+        if t is ast.MatchAs:
+            if p.pattern is not None and not self.match_pattern(p.pattern, v, binds, env):
+                return False
+            if p.name is not None:
+                binds[p.name] = v
+            return True
+        if t is ast.MatchOr:
+            for alt in p.patterns:
+                b2: dict[str, Any] = {}
+                if self.match_pattern(alt, v, b2, env):
+                    binds.update(b2)
+                    return True
+            return False
+        if t is ast.MatchSequence:
+            if isinstance(v, (str, bytes, SStr)) or (isinstance(v, AList) and v.kind == "bytearray"):
+                return False
+            if isinstance(v, tuple):
+                items = list(v)
+            elif isinstance(v, AList):
+                items = list(v.items)
+            elif isinstance(v, Obj) and v.tuple_items is not None:
+                items = list(v.tuple_items)
+            elif isinstance(v, (Unknown, ExtObj, GenObj, AIter, SymIter)):
+                if isinstance(v, Unknown):
+                    raise self.unsupported("sequence pattern on an unknown value")
+                return False
+            else:
+                return False
+            star = [i for i, e in enumerate(p.patterns) if isinstance(e, ast.MatchStar)]
+            if not star:
+                if len(items) != len(p.patterns):
+                    return False
+                return all(self.match_pattern(sp, x, binds, env) for sp, x in zip(p.patterns, items))
+            i = star[0]
+            after = len(p.patterns) - i - 1
+            if len(items) < len(p.patterns) - 1:
+                return False
+            for sp, x in zip(p.patterns[:i], items[:i]):
+                if not self.match_pattern(sp, x, binds, env):
+                    return False
+            if p.patterns[i].name is not None:
+                binds[p.patterns[i].name] = AList(list(items[i : len(items) - after]))
+            for sp, x in zip(p.patterns[i + 1 :], items[len(items) - after :]):
+                if not self.match_pattern(sp, x, binds, env):
+                    return False
+            return True
+        if t is ast.MatchMapping:
+            if not isinstance(v, ADict):
+                if isinstance(v, Unknown):
+                    raise self.unsupported("mapping pattern on an unknown value")
+                return False
+            seen = []
+            for kexpr, sp in zip(p.keys, p.patterns):
+                key = self.eval(kexpr, env)
+                hit = MISSING
+                for k_, x in v.pairs:
+                    if self.truth(self.eq(k_, key), "case-key"):
+                        hit = x
+                        seen.append(k_)
+                        break
+                if hit is MISSING or not self.match_pattern(sp, hit, binds, env):
+                    return False
+            if p.rest is not None:
+                binds[p.rest] = ADict([[k_, x] for k_, x in v.pairs if not any(k_ is s_ for s_ in seen)])
+            return True
+        if t is ast.MatchClass:
+            cls = self.eval(p.cls, env)
+            r = self.isinstance_one(v, cls)
+            if r is not True and r is not False:
+                r = self.truth(r, "case-class")
+            if not r:
+                return False
+            if p.patterns:
+                if isinstance(cls, ExtRef) and cls.name.startswith("builtins.") and cls.name[9:] in self._BUILTIN_SELF_MATCH:
+                    if len(p.patterns) != 1:
+                        raise self.exc("TypeError", f"{cls.name[9:]}() accepts 1 positional sub-pattern")
+                    if not self.match_pattern(p.patterns[0], v, binds, env):
+                        return False
+                else:
+                    names = self.match_args(cls)
+                    if len(p.patterns) > len(names):
+                        raise self.exc("TypeError", f"{cls!r} accepts {len(names)} positional sub-patterns ({len(p.patterns)} given)")
+                    for sp, nm in zip(p.patterns, names):
+                        sub = self.getattr(v, nm, MISSING2)
+                        if sub is MISSING2 or not self.match_pattern(sp, sub, binds, env):
+                            return False
+            for nm, sp in zip(p.kwd_attrs, p.kwd_patterns):
+                sub = self.getattr(v, nm, MISSING2)
+                if sub is MISSING2 or not self.match_pattern(sp, sub, binds, env):
+                    return False
+            return True
+        raise self.unsupported(f"pattern {t.__name__}")
+
+    def match_args(self, cls: Any) -> list[str]:
+        if isinstance(cls, ClassInfo):
+            ma = self.lookup_class_attr(cls, "__match_args__")
+            if ma is not MISSING:
+                return list(self.unpack_values(ma))
+            if cls.is_namedtuple or any(isinstance(c, ClassInfo) and c.is_namedtuple for c in cls.mro):
+                return list(next(c for c in cls.mro if isinstance(c, ClassInfo) and c.is_namedtuple).nt_fields)
+            if any(isinstance(c, ClassInfo) and c.dataclass is not None for c in cls.mro):
+                return [n for n, _ in self.dataclass_fields(cls)]
+            return []
+        raise self.unsupported(f"positional class pattern for {cls!r}")
+
     @staticmethod
     def _as_load(node: ast.expr) -> ast.expr:
         import copy
@@ -391,12 +536,17 @@ class Interp:
     def _yield_from(self, v: ast.YieldFrom, env: Env) -> Iterator[Any]:
         src = self.eval(v.value, env)
         it = self.get_iter(src)
+        sent = None
         while True:
-            ok, item = self.next_value(it)
+            if sent is not None and isinstance(it, GenObj):
+                ok, item = self.send_value(it, sent)
+            else:
+                ok, item = self.next_value(it)
             if not ok:
                 break
             self.emit("yield", value=item, func=env.func.qualname if env.func else "", via="yield from")
-            yield item
+            sent = yield item
+        return getattr(it, "retval", None)
 
     def _exec_for(self, st: ast.For, env: Env) -> Iterator[Any]:
         it = self.get_iter(self.eval(st.iter, env))
@@ -434,6 +584,10 @@ class Interp:
         val = self.eval(st.exc, env)
         if isinstance(val, (ClassInfo, ExtRef)):
             val = self.call(val, [], {})
+        if st.cause is not None:
+            cause = self.eval(st.cause, env)
+            if isinstance(val, (Obj, ExtObj)):
+                val.attrs["__cause__"] = cause
         self.emit("raise", exc=self.exc_class_name(val))
         raise PyRaise(val, self.site)
 
@@ -471,66 +625,105 @@ class Interp:
 
     def _exec_with(self, st: ast.With, env: Env) -> Iterator[Any]:
         if len(st.items) != 1:
-            raise self.unsupported("with: several items")
+            inner = ast.With(items=st.items[1:], body=st.body, type_comment=None)
+            ast.copy_location(inner, st)
+            outer = ast.With(items=st.items[:1], body=[inner], type_comment=None)
+            ast.copy_location(outer, st)
+            yield from self._exec_with(outer, env)
+            return
         item = st.items[0]
         cm = self.eval(item.context_expr, env)
+        entered, exit_fn = self.cm_enter(cm)
+        if item.optional_vars is not None:
+            self.assign(item.optional_vars, entered, env)
+        try:
+            yield from self.exec_block(st.body, env)
+        except PyRaise as pr:
+            if exit_fn(pr):
+                return
+            raise
+        except (ReturnSignal, BreakSignal, ContinueSignal):
+            exit_fn(None)
+            raise
+        except GeneratorExit:
+            exit_fn(None)
+            raise
+        exit_fn(None)
+
+    def cm_enter(self, cm: Any) -> tuple[Any, Callable[[Any], bool]]:
+        """Enter a context manager; returns (value bound by 'as', exit function).  The exit function takes the
+        PyRaise in flight (or None) and returns True when the exception is swallowed."""
         if isinstance(cm, ExtObj) and cm.kind == "contextlib.suppress":
-            try:
-                yield from self.exec_block(st.body, env)
-            except PyRaise as pr:
-                if not any(self.exc_matches(pr.exc, c) for c in cm.attrs["classes"]):
-                    raise
-                self.emit("suppressed", exc=self.exc_class_name(pr.exc))
-            return
+
+            def exit_suppress(pr: Any) -> bool:
+                if pr is not None and any(self.exc_matches(pr.exc, c) for c in cm.attrs["classes"]):
+                    self.emit("suppressed", exc=self.exc_class_name(pr.exc))
+                    return True
+                return False
+
+            return cm, exit_suppress
         if isinstance(cm, Obj) and self.lookup_class_attr(cm.cls, "__enter__") is not MISSING:
             entered = self.call(self.getattr(cm, "__enter__"), [], {})
-            if item.optional_vars is not None:
-                self.assign(item.optional_vars, entered, env)
-            try:
-                yield from self.exec_block(st.body, env)
-            except PyRaise as pr:
+
+            def exit_obj(pr: Any) -> bool:
+                if pr is None:
+                    self.call(self.getattr(cm, "__exit__"), [None, None, None], {})
+                    return False
                 e = pr.exc
                 etype: Any = e.cls if isinstance(e, Obj) else ExtRef("builtins." + self.exc_class_name(e))
-                swallow = self.call(self.getattr(cm, "__exit__"), [etype, e, None], {})
-                if not self.truth(swallow, "__exit__"):
-                    raise
-                return
-            except (ReturnSignal, BreakSignal, ContinueSignal):
-                self.call(self.getattr(cm, "__exit__"), [None, None, None], {})
-                raise
-            self.call(self.getattr(cm, "__exit__"), [None, None, None], {})
-            return
+                return self.truth(self.call(self.getattr(cm, "__exit__"), [etype, e, None], {}), "__exit__")
+
+            return entered, exit_obj
         if isinstance(cm, ExtObj) and cm.kind == "generator_cm":
             gen = cm.attrs["gen"]
             ok, entered = self.next_value(gen)
             if not ok:
                 raise self.exc("RuntimeError", "generator didn't yield")
-            if item.optional_vars is not None:
-                self.assign(item.optional_vars, entered, env)
-            try:
-                yield from self.exec_block(st.body, env)
-            except PyRaise as pr:
+
+            def exit_gen(pr: Any) -> bool:
+                if pr is None:
+                    ok2, _ = self.next_value(gen)
+                    if ok2:
+                        raise self.exc("RuntimeError", "generator didn't stop")
+                    return False
                 try:
                     gen.host.throw(pr)
                 except StopIteration:
-                    return  # the generator swallowed the exception
-                except PyRaise:
+                    gen.done = True
+                    return True  # the generator swallowed the exception
+                except PyRaise as pr2:
+                    gen.done = True
+                    if pr2 is pr:
+                        return False
                     raise
                 raise self.exc("RuntimeError", "generator didn't stop after throw()")
-            except (ReturnSignal, BreakSignal, ContinueSignal):
-                self.next_value(gen)
-                raise
-            ok, _ = self.next_value(gen)
-            if ok:
-                raise self.exc("RuntimeError", "generator didn't stop")
-            return
+
+            return entered, exit_gen
+        if isinstance(cm, ExtObj) and cm.kind == "contextlib.ExitStack":
+            def exit_stack(pr: Any) -> bool:
+                swallowed = False
+                cur = pr
+                while cm.attrs["stack"]:
+                    fn = cm.attrs["stack"].pop()
+                    try:
+                        if fn(cur):
+                            swallowed = swallowed or cur is not None
+                            cur = None
+                    except PyRaise as new:
+                        cur = new
+                        swallowed = False
+                if cur is not None and cur is not pr:
+                    raise cur
+                return swallowed and pr is not None
+
+            return cm, exit_stack
         entered = self.models.context_enter(self, cm)
-        if item.optional_vars is not None:
-            self.assign(item.optional_vars, entered, env)
-        try:
-            yield from self.exec_block(st.body, env)
-        finally:
+
+        def exit_ext(pr: Any) -> bool:
             self.models.context_exit(self, cm)
+            return False
+
+        return entered, exit_ext
 
     def _exec_importfrom(self, st: ast.ImportFrom, env: Env) -> None:
         mod = st.module or ""
@@ -679,6 +872,15 @@ class Interp:
             if n in ("functools.cache", "functools.lru_cache"):
                 fn.cached = True
                 return fn
+            if n == "functools.cached_property":
+                new = FuncRef(fn.info, fn.env, fn.defaults, "property")
+                new.cache_attr = True  # type: ignore[attr-defined]
+                return new
+            if n == "functools.singledispatchmethod":
+                sd = SingleDispatch(fn)
+                sd.shared = self.init_depth > 0
+                sd.method = True  # type: ignore[attr-defined]
+                return sd
             if n == "contextlib.contextmanager":
                 fn.kind = "contextmanager"
                 return fn
@@ -699,12 +901,34 @@ class Interp:
             dec.attrs["sd"].registry.append((dec.attrs["cls"], fn))
             self.emit("register", what=dec.attrs["sd"].default.info.qualname)
             return fn
+        if isinstance(dec, ExtMethod) and dec.kind == "singledispatch" and dec.name == "register" and isinstance(fn, FuncRef):
+            sd = dec.recv
+            params = fn.info.node.args.posonlyargs + fn.info.node.args.args  # type: ignore[attr-defined]
+            idx = 1 if getattr(sd, "method", False) else 0
+            if len(params) <= idx or params[idx].annotation is None:
+                raise self.exc("TypeError", "Invalid first argument to register(): use either @register(some_class) or a type annotation")
+            ann = params[idx].annotation
+            if isinstance(ann, ast.Constant) and isinstance(ann.value, str):
+                ann = ast.parse(ann.value, mode="eval").body
+            target = self.eval(ann, fn.env)
+            sd.registry.append((target, fn))
+            self.emit("register", what=sd.default.info.qualname)
+            return fn
+        if isinstance(dec, ExtObj) and dec.kind == "functools.wraps":
+            if isinstance(fn, FuncRef):
+                w = dec.attrs["wrapped"]
+                new = FuncRef(fn.info, fn.env, fn.defaults, fn.kind)
+                new.wrapped = w  # type: ignore[attr-defined]
+                return new
+            return fn
+        if isinstance(dec, (FuncRef, BoundMethod, Obj, ClassInfo)) or (isinstance(dec, ExtObj) and dec.kind == "functools.partial"):
+            return self.call(dec, [fn], {})
         raise self.unsupported(f"decorator value {dec!r} on {name}")
 
     def _make_dataclass(self, cls: Any, opts: dict) -> Any:
         if not isinstance(cls, ClassInfo):
             raise self.unsupported("dataclass on non-class")
-        cls.dataclass = {"frozen": bool(opts.get("frozen", False))}
+        cls.dataclass = {"frozen": bool(opts.get("frozen", False)), "slots": bool(opts.get("slots", False))}
         return cls
 
     def make_class(self, node: ast.ClassDef, env: Env) -> ClassInfo:
@@ -725,18 +949,38 @@ class Interp:
         if any(isinstance(b, ExtRef) and b.name in ("typing.NamedTuple",) for b in flat_bases):
             cls.is_namedtuple = True
             cls.nt_fields = list(cls.annotations)
-        if any(isinstance(b, ExtRef) and b.name in ("enum.IntEnum", "enum.Enum") for b in flat_bases):
+        enum_bases = [b for b in flat_bases if (isinstance(b, ExtRef) and b.name in ("enum.IntEnum", "enum.Enum", "enum.IntFlag", "enum.StrEnum", "enum.Flag")) or (isinstance(b, ClassInfo) and b.is_enum)]
+        if enum_bases:
+            if any(isinstance(b, ExtRef) and b.name in ("enum.IntFlag", "enum.StrEnum", "enum.Flag") for b in flat_bases):
+                raise self.unsupported(f"enum base of {node.name}")
             cls.is_enum = True
+            int_like = any((isinstance(b, ExtRef) and b.name in ("enum.IntEnum", "builtins.int")) or (isinstance(b, ClassInfo) and getattr(b, "enum_int", False)) for b in flat_bases)
+            cls.enum_int = int_like  # type: ignore[attr-defined]
             auto = 0
             for k in list(cls.attrs):
                 v = cls.attrs[k]
+                if k.startswith("_") or isinstance(v, (FuncRef, ClassInfo)) or (isinstance(v, ExtObj) and v.kind in ("classmethod", "staticmethod")):
+                    continue
                 if isinstance(v, ExtObj) and v.kind == "enum.auto":
                     auto += 1
                     v = auto
-                if isinstance(v, int) and not isinstance(v, bool) and not k.startswith("_"):
+                if isinstance(v, int) and not isinstance(v, bool):
                     auto = max(auto, int(v))
+                if int_like:
+                    if not (isinstance(v, int) and not isinstance(v, bool)):
+                        raise self.unsupported(f"IntEnum member {k} with non-int value")
                     cls.attrs[k] = EnumInt(int(v), cls, k)
-                    cls.enum_members.append(k)
+                else:
+                    # plain Enum: members are singletons that compare by identity (never equal to their value)
+                    alias = next((cls.attrs[m] for m in cls.enum_members if self.eq(cls.attrs[m].attrs["_value_"], v) is True), None)
+                    if alias is not None:
+                        cls.attrs[k] = alias
+                        continue
+                    member = Obj(cls, {"_name_": k, "_value_": v, "name": k, "value": v})
+                    member.shared = True
+                    member.frozen_ok = True
+                    cls.attrs[k] = member
+                cls.enum_members.append(k)
         cls.mro = self._c3(cls)
         # dataclass inheritance marker is per class; decorators applied after
         result: Any = cls
@@ -875,7 +1119,8 @@ class Interp:
         def host() -> Iterator[Any]:
             try:
                 yield from self.exec_block(body, env)
-            except ReturnSignal:
+            except ReturnSignal as r:
+                gen.retval = r.value
                 return
 
         gen.host = host()
@@ -888,6 +1133,10 @@ class Interp:
                 raise self.unsupported("unbound classmethod call")
             return self.call_function(fn, args, kwargs)
         if isinstance(fn, BoundMethod):
+            if isinstance(fn.func, SingleDispatch):
+                if not args:
+                    raise self.exc("TypeError", "singledispatchmethod requires at least 1 positional argument")
+                return self.call(self.dispatch(fn.func, args[0]), [fn.self_obj] + list(args), kwargs)
             return self.call(fn.func, [fn.self_obj] + list(args), kwargs) if isinstance(fn.func, FuncRef) else self.call(fn.func, args, kwargs)
         if isinstance(fn, ClassInfo):
             return self.instantiate(fn, args, kwargs)
@@ -908,6 +1157,12 @@ class Interp:
                 return self.call(self.bind(m, fn, fn.cls), args, kwargs)
         if isinstance(fn, ExtObj) and fn.kind == "functools.partial":
             return self.call(fn.attrs["func"], list(fn.attrs["args"]) + list(args), {**fn.attrs["kwargs"], **kwargs})
+        if isinstance(fn, ExtObj):
+            from . import models_std
+
+            r = models_std.call_callable_obj(self, fn, args, kwargs)
+            if r is not models_std.MISSING:
+                return r
         if isinstance(fn, Unknown):
             self.emit("ext", name="call-unknown", recv=repr(fn))
             return fresh_unknown("result of unknown callable")
@@ -952,8 +1207,11 @@ class Interp:
     def instantiate(self, cls: ClassInfo, args: list, kwargs: dict) -> Any:
         if cls.is_enum:
             for m in cls.enum_members:
-                if args and cls.attrs[m] == args[0]:
-                    return cls.attrs[m]
+                mem = cls.attrs[m]
+                if args and (mem is args[0] or (isinstance(mem, EnumInt) and not isinstance(args[0], (Obj, Unknown)) and mem == args[0]) or (isinstance(mem, Obj) and self.eq(mem.attrs["_value_"], args[0]) is True)):
+                    return mem
+            if args and isinstance(args[0], Unknown):
+                raise self.unsupported(f"{cls.name}(unknown value)")
             raise self.exc("ValueError", f"{args!r} is not a valid {cls.name}")
         if cls.is_namedtuple or any(isinstance(c, ClassInfo) and c.is_namedtuple for c in cls.mro):
             ntc = next(c for c in cls.mro if isinstance(c, ClassInfo) and c.is_namedtuple)
@@ -1050,8 +1308,14 @@ class Interp:
         return [c for c in mro if isinstance(c, ExtRef)]
 
     def bind(self, attr: Any, obj: Any, cls: ClassInfo) -> Any:
+        if isinstance(attr, SingleDispatch) and getattr(attr, "method", False) and obj is not None:
+            return BoundMethod(obj, attr)
         if isinstance(attr, FuncRef):
             if attr.kind == "property":
+                if obj is not None and getattr(attr, "cache_attr", False):
+                    val = self.call_function(attr, [obj], {})
+                    obj.attrs[attr.info.name] = val
+                    return val
                 return self.call_function(attr, [obj], {}) if obj is not None else attr
             if attr.kind == "classmethod":
                 return BoundMethod(cls, FuncRef(attr.info, attr.env, attr.defaults, "function"))
@@ -1122,6 +1386,22 @@ class Interp:
                 return obj.member
         return self.models.getattr_ext(self, obj, name)
 
+    def slots_of(self, cls: ClassInfo) -> set | None:
+        """Attribute names allowed by __slots__, or None when instances have a __dict__."""
+        names: set = set()
+        for c in cls.mro:
+            if isinstance(c, ClassInfo):
+                if c.dataclass is not None and c.dataclass.get("slots"):
+                    names.update(n for n, _ in self.dataclass_fields(c))
+                    continue
+                sl = c.attrs.get("__slots__", MISSING)
+                if sl is MISSING:
+                    return None
+                names.update([sl] if isinstance(sl, str) else self.unpack_values(sl))
+            elif isinstance(c, ExtRef) and c.name != "builtins.object":
+                return None
+        return names
+
     def setattr(self, obj: Any, name: str, val: Any) -> None:
         if isinstance(obj, Obj):
             if any(isinstance(c, ClassInfo) and c.dataclass and c.dataclass["frozen"] for c in obj.cls.mro) and not obj.frozen_ok:
@@ -1133,6 +1413,10 @@ class Interp:
                     raise self.exc("AttributeError", f"property '{name}' has no setter")
                 self.call_function(setter, [obj, val], {})
                 return
+            if name not in obj.attrs:
+                slots = self.slots_of(obj.cls)
+                if slots is not None and name not in slots:
+                    raise self.exc("AttributeError", f"'{obj.cls.name}' object has no attribute '{name}'")
             self.emit("setattr", obj=obj, attr=name, value=val, shared=obj.shared and self.init_depth == 0)
             obj.attrs[name] = val
             return
@@ -1179,13 +1463,16 @@ class Interp:
             return AIter(iter([v.attrs[m] for m in v.enum_members]), "enum")
         return self.models.iter_ext(self, v)
 
-    def next_value(self, it: Any) -> tuple[bool, Any]:
+    def send_value(self, it: GenObj, value: Any) -> tuple[bool, Any]:
+        return self.next_value(it, send=value)
+
+    def next_value(self, it: Any, send: Any = None) -> tuple[bool, Any]:
         if isinstance(it, GenObj):
             if it.done:
                 return False, None
-            it.started = True
             try:
-                v = next(it.host)
+                v = it.host.send(send) if (send is not None and it.started) else next(it.host)
+                it.started = True
                 return True, v
             except StopIteration:
                 it.done = True
@@ -1283,6 +1570,8 @@ class Interp:
         if isinstance(a, Unknown) or isinstance(b, Unknown):
             ka = a.key if isinstance(a, Unknown) else _key(a)
             kb = b.key if isinstance(b, Unknown) else _key(b)
+            if isinstance(a, Unknown) and isinstance(b, Unknown) and repr(ka) == repr(kb) and not (isinstance(ka, tuple) and ka and ka[0] == "fresh"):
+                return True  # the same unknown quantity
             return Unknown(("eq",) + tuple(sorted((repr(ka), repr(kb)))), f"{a!r}=={b!r}")
         if isinstance(a, Obj) or isinstance(b, Obj):
             for x, y in ((a, b), (b, a)):
@@ -1334,7 +1623,27 @@ class Interp:
                         return False
             return res
         if isinstance(a, AList) and isinstance(b, AList):
+            if (a.kind == "bytearray") != (b.kind == "bytearray") or (a.kind == "deque") != (b.kind == "deque"):
+                return False
             return self.eq(tuple(a.items), tuple(b.items))
+        if isinstance(a, AList) and a.kind == "bytearray" and isinstance(b, bytes):
+            return bytes(a.items) == b
+        if isinstance(b, AList) and b.kind == "bytearray" and isinstance(a, bytes):
+            return bytes(b.items) == a
+        if isinstance(a, ADict) and isinstance(b, ADict):
+            if len(a.pairs) != len(b.pairs):
+                return False
+            if a.kind == "OrderedDict" and b.kind == "OrderedDict":
+                return self.eq(tuple((k, v) for k, v in a.pairs), tuple((k, v) for k, v in b.pairs))
+            for k, v in a.pairs:
+                i = self.models.dict_find(self, b, k)
+                if i is None or not self.truth(self.eq(v, b.pairs[i][1]), "dict-eq"):
+                    return False
+            return True
+        if isinstance(a, ASet) and isinstance(b, ASet):
+            if len(a.items) != len(b.items):
+                return False
+            return all(self.truth(self.contains(b, x), "set-eq") for x in a.items)
         if isinstance(a, ExtObj) or isinstance(b, ExtObj):
             return self.models.eq_ext(self, a, b)
         if isinstance(a, (ClassInfo, FuncRef, Msg, ADict, AList, ASet, GenObj, ModuleRef)) or isinstance(b, (ClassInfo, FuncRef, Msg, ADict, AList, ASet, GenObj, ModuleRef)):
@@ -1515,7 +1824,16 @@ class Interp:
                 if fv.conversion == 114:  # !r
                     parts.append(self.models.to_repr(self, val))
                 elif fv.format_spec is not None:
-                    parts.append(Atom(f"fmt{getattr(fv, 'lineno', 0)}", nonempty=None))
+                    spec = self.eval(fv.format_spec, env)
+                    from . import models_std as _ms
+
+                    if isinstance(spec, str) and _ms.is_concrete(val):
+                        try:
+                            parts.append(format(val, spec))
+                        except (ValueError, TypeError) as e:
+                            raise self.exc(type(e).__name__, str(e))
+                    else:
+                        parts.append(Atom(f"fmt{getattr(fv, 'lineno', 0)}", nonempty=None))
                 else:
                     parts.append(self.models.to_str(self, val, opaque_ok=True))
         try:
@@ -1546,6 +1864,12 @@ class Interp:
                 return -v
             if isinstance(v, Unknown):
                 return Unknown(("neg", v.key), f"-{v!r}")
+        if isinstance(node.op, ast.UAdd) and isinstance(v, (int, float)):
+            return +v
+        if isinstance(node.op, ast.Invert) and isinstance(v, int):
+            return ~v
+        if isinstance(v, Unknown):
+            return Unknown((type(node.op).__name__, v.key), f"{type(node.op).__name__} {v!r}")
         raise self.unsupported(f"unary {type(node.op).__name__} on {v!r}")
 
     def _e_IfExp(self, node: ast.IfExp, env: Env) -> Any:
@@ -1607,9 +1931,36 @@ class Interp:
             return {ast.Lt: a < b, ast.LtE: a <= b, ast.Gt: a > b, ast.GtE: a >= b}[op]
         if isinstance(a, str) and isinstance(b, str):
             return {ast.Lt: a < b, ast.LtE: a <= b, ast.Gt: a > b, ast.GtE: a >= b}[op]
+        if isinstance(a, bytes) and isinstance(b, bytes):
+            return {ast.Lt: a < b, ast.LtE: a <= b, ast.Gt: a > b, ast.GtE: a >= b}[op]
+        seq_a = a.items if isinstance(a, AList) and a.kind == "list" else (list(a) if isinstance(a, tuple) else None)
+        seq_b = b.items if isinstance(b, AList) and b.kind == "list" else (list(b) if isinstance(b, tuple) else None)
+        if seq_a is not None and seq_b is not None and isinstance(a, tuple) == isinstance(b, tuple):
+            # lexicographic: first differing element decides, then the lengths
+            for x, y in zip(seq_a, seq_b):
+                if not self.truth(self.eq(x, y), "seq-compare"):
+                    return self.compare(op, x, y)
+            return {ast.Lt: len(seq_a) < len(seq_b), ast.LtE: len(seq_a) <= len(seq_b), ast.Gt: len(seq_a) > len(seq_b), ast.GtE: len(seq_a) >= len(seq_b)}[op]
+        if isinstance(a, ASet) and isinstance(b, ASet):
+            sub = all(self.truth(self.contains(b, x), "subset") for x in a.items)
+            sup = all(self.truth(self.contains(a, x), "superset") for x in b.items)
+            return {ast.LtE: sub, ast.Lt: sub and not sup, ast.GtE: sup, ast.Gt: sup and not sub}[op]
+        if isinstance(a, Obj):
+            dunder = {ast.Lt: "__lt__", ast.LtE: "__le__", ast.Gt: "__gt__", ast.GtE: "__ge__"}[op]
+            m = self.lookup_class_attr(a.cls, dunder)
+            if m is not MISSING:
+                return self.call(self.bind(m, a, a.cls), [b], {})
+        from . import models_std as _ms
+
+        if _ms.is_concrete(a) and _ms.is_concrete(b):
+            raise self.exc("TypeError", f"'{ {ast.Lt: '<', ast.LtE: '<=', ast.Gt: '>', ast.GtE: '>='}[op] }' not supported between instances of '{type(a).__name__}' and '{type(b).__name__}'")
         raise self.unsupported(f"ordering comparison of {a!r} and {b!r}")
 
     def contains(self, container: Any, item: Any) -> Any:
+        if isinstance(container, bytes) and isinstance(item, (int, bytes)) and not isinstance(item, bool):
+            return item in container
+        if isinstance(container, AList) and container.kind == "bytearray" and isinstance(item, (int, bytes)):
+            return item in bytes(container.items)
         if isinstance(container, (tuple, AList, ASet)) or (isinstance(container, Obj) and container.tuple_items is not None):
             items = container if isinstance(container, tuple) else (container.items if isinstance(container, (AList, ASet)) else container.tuple_items)
             for x in items:
@@ -1710,8 +2061,41 @@ class Interp:
                 raise self.exc("ZeroDivisionError", "division by zero")
         if isinstance(a, Unknown) or isinstance(b, Unknown):
             return Unknown(("binop", op.__name__, _key(a), _key(b)), f"{a!r}{op.__name__}{b!r}")
-        if op is ast.Mod and isinstance(a, str):
-            return Atom("pct-format", nonempty=None) and sstr(Atom("pct-format", nonempty=None))
+        from . import models_std as _ms
+
+        if op is ast.Mod and isinstance(a, (str, bytes)):
+            if _ms.is_concrete(b):
+                try:
+                    return a % b
+                except (TypeError, ValueError) as e:
+                    raise self.exc(type(e).__name__, str(e))
+            return sstr(Atom("pct-format", nonempty=None))
+        if isinstance(a, ASet) and isinstance(b, ASet) and op in (ast.BitOr, ast.BitAnd, ast.Sub, ast.BitXor):
+            def has(st: ASet, x: Any) -> bool:
+                return self.contains(st, x) is True or (self.contains(st, x) is not False and self.truth(self.contains(st, x), "set-op"))
+
+            if op is ast.BitOr:
+                items = list(a.items) + [x for x in b.items if not has(a, x)]
+            elif op is ast.BitAnd:
+                items = [x for x in a.items if has(b, x)]
+            elif op is ast.Sub:
+                items = [x for x in a.items if not has(b, x)]
+            else:
+                items = [x for x in a.items if not has(b, x)] + [x for x in b.items if not has(a, x)]
+            if inplace and not a.frozen:
+                a.items[:] = items
+                return a
+            return ASet(items, frozen=a.frozen)
+        if isinstance(a, (int, float)) and isinstance(b, (int, float)):
+            if op is ast.BitXor:
+                return a ^ b
+        if op is ast.Add and (_ms.is_concrete(a) and _ms.is_concrete(b)):
+            raise self.exc("TypeError", f"unsupported operand type(s) for +: '{type(a).__name__}' and '{type(b).__name__}'")
+        if op is ast.Mult and _ms.is_concrete(a) and _ms.is_concrete(b):
+            try:
+                return a * b
+            except TypeError as e:
+                raise self.exc("TypeError", str(e))
         raise self.unsupported(f"binary {op.__name__} on {a!r} and {b!r}")
 
     def _e_Subscript(self, node: ast.Subscript, env: Env) -> Any:
